@@ -64,6 +64,19 @@ def rec_i2k(digits):
         out = gk.index_to_kmer(idx, k)
         r['kmer'] = blist(out)
         r['ok'] = isinstance(out, bytes)
+        # the same call with k and the index as NumPy scalars (what a KmerSpec read from a signature file / an element of a signature holds)
+        import numpy as np
+        for kt in (np.int64, np.uint8, np.int32, np.uint64):
+            try:
+                o2 = gk.index_to_kmer(np.uint64(idx) if kt is not np.int32 else idx, kt(k))
+            except Exception as e:
+                r['ok'] = False
+                r['err'] = f'{type(e).__name__} for k of type {kt.__name__}'
+                break
+            if bytes(o2) != bytes(out):
+                r['kmer'] = blist(o2)
+                r['ok'] = False
+                r['err'] = f'differs for k of type {kt.__name__}'
     except Exception as e:
         r['err'] = type(e).__name__
     return r
